@@ -45,6 +45,8 @@ type PIDZero struct {
 	signalChan         chan os.Signal
 	errorChan          chan error
 	wg                 sync.WaitGroup
+	wgMu               sync.Mutex // orders additions to wg against the start of Shutdown's wait
+	shuttingDown       bool       // set by Shutdown under wgMu; nothing is added to wg afterwards
 	cancel             context.CancelFunc
 	signalListenerOnce sync.Once
 	shutdownOnce       sync.Once
@@ -190,7 +192,7 @@ func (p *PIDZero) Run() error {
 	// Start a single reload manager if any runnable is reloadable
 	for _, r := range p.runnables {
 		if _, ok := r.(Reloadable); ok {
-			p.wg.Go(p.startReloadManager)
+			p.goTracked(p.startReloadManager)
 			break
 		}
 	}
@@ -198,7 +200,7 @@ func (p *PIDZero) Run() error {
 	// Start a single state monitor if any runnable reports state
 	for _, r := range p.runnables {
 		if _, ok := r.(Stateable); ok {
-			p.wg.Go(p.startStateMonitor)
+			p.goTracked(p.startStateMonitor)
 			break
 		}
 	}
@@ -206,20 +208,26 @@ func (p *PIDZero) Run() error {
 	// Start a single shutdown manager if any runnable can trigger shutdown
 	for _, r := range p.runnables {
 		if _, ok := r.(ShutdownSender); ok {
-			p.wg.Go(p.startShutdownManager)
+			p.goTracked(p.startShutdownManager)
 			break
 		}
 	}
 
 	// Start each service in sequence
 	for _, r := range p.runnables {
-		p.wg.Go(func() {
+		started := p.goTracked(func() {
 			err := p.startRunnable(r)
 			if err != nil {
 				p.logger.Error("Runnable exited with error", "runnable", r, "error", err)
 				p.errorChan <- err
 			}
 		})
+		if !started {
+			// Shutdown() has begun (it has already called Stop on every runnable):
+			// start nothing more and let reap() wait for it to complete
+			p.logger.Debug("Shutdown in progress, not starting remaining runnables", "runnable", r)
+			break
+		}
 
 		// if this Runnable implements the Stateable block here until IsRunning()
 		if stateable, ok := r.(Stateable); ok {
@@ -236,6 +244,19 @@ func (p *PIDZero) Run() error {
 
 	// Begin reaping process to monitor signals and errors
 	return p.reap()
+}
+
+// goTracked starts f in a goroutine tracked by p.wg, unless Shutdown has begun. A
+// sync.WaitGroup must not be added to while a Wait is in progress and its counter may
+// be zero, which is what a Shutdown() overlapping the start-up sequence would do.
+func (p *PIDZero) goTracked(f func()) bool {
+	p.wgMu.Lock()
+	defer p.wgMu.Unlock()
+	if p.shuttingDown {
+		return false
+	}
+	p.wg.Go(f)
+	return true
 }
 
 // blockUntilRunnableReady blocks until the runnable is in a running state.
@@ -297,6 +318,10 @@ func (p *PIDZero) blockUntilRunnableReady(r Stateable) error {
 // immediately afterward.
 func (p *PIDZero) Shutdown() {
 	p.shutdownOnce.Do(func() {
+		p.wgMu.Lock()
+		p.shuttingDown = true
+		p.wgMu.Unlock()
+
 		shutdownStart := time.Now()
 		p.logger.Info("Graceful shutdown has been initiated...")
 		signal.Stop(p.signalChan) // stop listening for new signals
